@@ -2,7 +2,7 @@ HOOK_COMMITS = ["1a493647ec3b19cd4a14a3dda9c3b59320f27bc6", "f628127618483cce189
 NOT_APPLICABLE = {}
 META = {
     "C01": {
-        "text": "Proof: the gate regenerated from Level.Enabled equals the admission rule of the statement for all integer levels, registries and debug states; every logContext site of all 59 public entry points (table regenerated from the source by a symbolic walk) is gated on the severity it emits, on the logger that emits; debug mode is sticky over all operation histories (induction). Tied to the code by the translator on every run and by a complete-product correspondence run.",
+        "text": "Proof: the gate regenerated from Level.Enabled equals the admission rule of the statement for all integer levels, registries and debug states; every logContext site of all 59 public entry points (table regenerated from the source by a symbolic walk) is gated on the severity it emits, on the logger that emits; debug mode is sticky over all operation histories (induction); after every history a logger's level is the one of the last SetLevel on that very logger, untouched by operations on other loggers, registrations and the debug switch (level_is_last_set, level_untouched; induction). Tied to the code by the translator on every run and by a complete-product correspondence run.",
         "design_ref": "DESIGN.md §7 C01",
         "note": "Trusted: Lean kernel; the go/ast extractor (validated by complete enumeration against the real functions); is.DebugMode == states.Env().GetDebugMode(); Go method promotion through *logimp.",
         "technique": "Lean 4 theorems over regenerated decision function + entry-point table (decide), induction over histories; exhaustive differential run",
